@@ -538,6 +538,11 @@ pub fn flatten_model(limit: usize, inners: &[InnerSpec], evs: &[FlatEv]) -> Flat
         running.push(Running { hot: usize::MAX });
         Some(false)
       }
+      InnerSpec::Ticker(_) => {
+        // timed inners are outside this (untimed) model: treated as never ending
+        running.push(Running { hot: usize::MAX });
+        Some(false)
+      }
       InnerSpec::Hot(i) => {
         if hot_done[*i] {
           // a terminated subject hands out a closed subscriber: the inner
